@@ -99,7 +99,7 @@ STATUS_FORMS = [0, 3, 4, 1]
 CUT_SPAN = {"quick": 170, "thorough": 400}
 
 
-def run_case(state, body_i, faults, ns_i=0, form=0, cut=None, lit=0):
+def run_case(state, body_i, faults, ns_i=0, form=0, cut=None, lit=0, wfault=None):
     names = NAMESETS[ns_i]
     store, active = build(state, BODIES[body_i], names)
     ch = refms.FixedChoices({"list-name-literal": lit, "getscript-quoted": 0}) if lit else None
@@ -107,11 +107,19 @@ def run_case(state, body_i, faults, ns_i=0, form=0, cut=None, lit=0):
     srv.status_form = form
     before = dict(srv.store)
     s = wire.open_session(srv)
+    if wfault is not None:
+        # the j-th write of the emulation fails after k octets (timeout); only the store-level clauses are judged for these
+        import socket as _socket
+        j, k = wfault
+        s.cur_socket().write_fault = (k, lambda: _socket.timeout("timed out"), j)
     if cut is not None:
         # one recv() boundary somewhere in the replies of the emulation's steps (offsets count from the first reply byte)
         s.cur_socket().set_seg(("cuts", [cut]) if cut > 0 else ("cap", -cut))
     o = s.call("renamescript", names["old"], names["new"])
-    return judge(before, active, srv, o, names), o, srv
+    bad = judge(before, active, srv, o, names)
+    if wfault is not None and bad and bad[0].startswith("outcome"):
+        bad = None  # how a failing send surfaces is not what C14 states; what it leaves on the server is
+    return bad, o, srv
 
 
 def task(t):
@@ -141,6 +149,17 @@ def task(t):
                                   "witness": "state old=%s new=%s other=%s faults=%r body=%r" % (state + (faults, BODIES[bi])), "observed": o.brief()})
                 elif sample is None and faults and o.kind == "ret":
                     sample = {"state": "old=%s new=%s other=%s" % state, "faults": repr(faults), "outcome": o.brief(), "store_after": sorted(srv.store)}
+        # a send that fails after k octets, at each of the (up to) five writes of the emulation
+        for j in range(5):
+            for k in (0, 1, 9, 20, 40):
+                bad, o, srv = run_case(state, 0, (), 0, 0, None, 0, (j, k))
+                n += 1
+                if bad:
+                    viols.append({"property": "C14", "engine": "wire",
+                                  "signature": ["C14", "old=%s new=%s other=%s" % state, "send-fails@write%d" % j, bad[0]],
+                                  "what": "emulated rename old->new from state old=%s new=%s other=%s, write %d fails after %d octets: %s (outcome %s)" % (state + (j, k, bad[1], o.brief())),
+                                  "case": {"state": list(state), "body_i": 0, "faults": [], "ns_i": 0, "wfault": [j, k]},
+                                  "witness": "state old=%s new=%s other=%s write-fault=%r" % (state + ((j, k),)), "observed": o.brief()})
         # segmentation inside the emulation: every single cut in the first CUT_SPAN reply bytes and small recv caps, names sent quoted / as literals
         for lit in (0, 1):
             for cut in list(range(1, CUT_SPAN[tier] + 1)) + [-1, -2, -3, -7]:
@@ -153,6 +172,37 @@ def task(t):
                                   "case": {"state": list(state), "body_i": 0, "faults": [], "ns_i": 0, "cut": cut, "lit": lit},
                                   "witness": "state old=%s new=%s other=%s cut=%r literal-names=%d" % (state + (cut, lit)), "observed": o.brief()})
     return dict(n=n, distinct=len(distinct), violations=viols, sample=sample)
+
+
+def same_name_cases():
+    """renamescript(x, x): both arguments name the same script - it must still exist afterwards, untouched, whatever is reported"""
+    viols = []
+    n = 0
+    fault_sets = [()] + [((v, a),) for v in VERBS for a in ("NO", "EOF")]
+    for st in ("present", "active"):
+        for other in ("absent", "present"):
+            for bi in (0, 4):
+                for faults in fault_sets:
+                    store = {"x": BODIES[bi]}
+                    if other == "present":
+                        store["other"] = b"discard;\r\n"
+                    srv = refms.RefServer(store=dict(store), active=("x" if st == "active" else None), version=False, faults=[(v, 0, a) for v, a in faults])
+                    s = wire.open_session(srv)
+                    o = s.call("renamescript", "x", "x")
+                    n += 1
+                    bad = None
+                    if o.kind in ("livelock", "hang") or (o.kind == "exc" and o.exc_type != "Error"):
+                        bad = ("outcome:" + (o.exc_type or o.kind), "rename onto the same name: %s" % o.brief())
+                    elif srv.store.get("x") is None or norm(srv.store["x"]) != norm(BODIES[bi]):
+                        bad = ("lost-old", "renamescript('x', 'x') left the store as %r (outcome %s)" % (sorted(srv.store), o.brief()))
+                    elif srv.store.get("other", b"discard;\r\n") != b"discard;\r\n" or (other == "present") != ("other" in srv.store):
+                        bad = ("overwritten:other", "bystander changed")
+                    elif (st == "active") != (srv.active == "x"):
+                        bad = ("active-moved", "active script was %r, now %r" % ("x" if st == "active" else None, srv.active))
+                    if bad:
+                        viols.append({"property": "C14", "engine": "wire", "signature": ["C14", "same-name x=%s other=%s" % (st, other), "+".join("%s@%s" % (a, v) for v, a in faults) or "no-fault", bad[0]],
+                                      "what": bad[1], "case": {"same_name": True}, "witness": "renamescript('x','x') x=%s other=%s faults=%r" % (st, other, faults), "observed": o.brief()})
+    return n, viols
 
 
 def run(tier, seed):
@@ -172,6 +222,9 @@ def run(tier, seed):
     n = sum(r["n"] for r in res) + 1
     for r in res:
         viols.extend(r["violations"])
+    n2, v2 = same_name_cases()
+    n += n2
+    viols.extend(v2)
     cov = dict(states=len(states) * len(BODIES), transitions=n, traces_validated_against_impl=n, evaluations=n, distinct_nontrivial=sum(r["distinct"] for r in res),
                rule="E3: %d initial stores (old/new/other x absent/present/active, at most one active) x %d bodies x fault placements (none; each of "
                     "%r x %r, each also under 3 name sets and 4 wordings of the server's completions (quoted, literal, response code + literal, two-line "
@@ -185,7 +238,9 @@ def replay(payload):
     c = payload["case"]
     if c.get("native"):
         return []
-    bad, o, srv = run_case(tuple(c["state"]), c["body_i"], tuple(tuple(f) for f in c["faults"]), c.get("ns_i", 0), c.get("form", 0), c.get("cut"), c.get("lit", 0))
+    if c.get("same_name"):
+        return [v for v in same_name_cases()[1] if v["signature"] == payload["signature"]]
+    bad, o, srv = run_case(tuple(c["state"]), c["body_i"], tuple(tuple(f) for f in c["faults"]), c.get("ns_i", 0), c.get("form", 0), c.get("cut"), c.get("lit", 0), tuple(c["wfault"]) if c.get("wfault") else None)
     if bad:
         sig = list(payload["signature"])
         sig[3] = bad[0]
